@@ -325,7 +325,7 @@ def run_shard(spec, ctx):
         return
     workdir = tempfile.mkdtemp(prefix="vf_c20_", dir=env.scratch_root())
     try:
-        gens = [inputs.generate({"gen": g}, r) for g in ("seedmut", "layer", "ioc", "url", "ctxdec", "soup", "cmd", "overlap", "echo")]
+        gens = [inputs.generate({"gen": g}, r) for g in ("seedmut", "layer", "ioc", "url", "ctxdec", "soup", "cmd", "overlap", "echo", "codec")]
         i = 0
         while not ctx.expired():
             i += 1
